@@ -1465,8 +1465,14 @@ def translate_file(ns, items):
     Returns the text of lean/SSVerif/Translated/<ns>.lean"""
     known, parts = {}, []
     for it in items:
-        x = FnXlate(it["src"], it["fn"], known, it.get("ignore_calls", ()), it.get("lines"), it.get("lean"),
-                    it.get("opaque_calls", ()))
+        cls = FnXlate
+        if it.get("cls"):      # extension subclass "module:Class" (tools/c2lean_x*.py): additive node kinds for that function only
+            import importlib
+            mod, cname = it["cls"].split(":")
+            cls = getattr(importlib.import_module(mod), cname)
+        x = cls(it["src"], it["fn"], known, it.get("ignore_calls", ()), it.get("lines"), it.get("lean"),
+                it.get("opaque_calls", ()))
+        x.item = it
         parts.append(x.translate())
         known[it["fn"]] = x.info
     srcs = ", ".join(sorted({it["src"] for it in items}))
